@@ -232,6 +232,25 @@ class RemoveFront(Simple, CartesianProductStrategy[WC, W]):
         return W(w[:k]), W(w[k:])
 
 
+class RemoveFrontLazy(RemoveFront):
+    """The same decomposition as RemoveFront, but declaring no shifts at all (a strategy may promise less
+    than it delivers): the same (parent, children) pair then exists with two different shift vectors, and
+    only the strict one makes recursive specifications productive."""
+
+    def shifts(self, comb_class, children=None):
+        if children is None:
+            children = self.decomposition_function(comb_class)
+        return tuple(0 for _ in children)
+
+    def is_reversible(self, comb_class):
+        # the shifts of a reverse rule are derived arithmetically from the declared ones, which is only
+        # sound when those are exact: a strategy that under-declares must not offer itself for reversal
+        return False
+
+    def formal_step(self):
+        return "remove front of prefix (no shifts declared)"
+
+
 class SplitFront(Simple, CartesianProductStrategy[WC, W]):
     """A product with three factors of different minimum sizes:
     C(p) = {p[:1]} x {p[1:s]} x C(p[s:])   when the safe cut s is at least 2."""
@@ -591,7 +610,7 @@ def basic_pack(**kw):
 
 def make_pack(sym=False, inf=False, merge=False, iterative=False, factory=False, parent_factory=False,
               prefix_verified=None, prefix_verified_rev=None, empty_prefix_verified=False, two_sets=False, no_initial=False, name=None, expand=True,
-              split=False, oneway=False):
+              split=False, oneway=False, lazy=False):
     inferral = ([MinimizePatterns()] if inf else []) + ([MergeStats()] if merge else [])
     exp = [ExpandFactory()] if factory else [Expand()]
     if parent_factory:
@@ -611,6 +630,9 @@ def make_pack(sym=False, inf=False, merge=False, iterative=False, factory=False,
     nm = name or "w%s%s%s%s%s%s" % ("-sym" if sym else "", "-inf" if inf else "", "-merge" if merge else "",
                                     "-it" if iterative else "", "-fac" if factory else "", "-pfac" if parent_factory else "")
     initial = [] if no_initial else ([SplitFront(), RemoveFront()] if split else [RemoveFront()])
+    if lazy and not no_initial:
+        # not ignore_parent: the queue must still hand out the strict strategy for the same class afterwards
+        initial = [RemoveFrontLazy(ignore_parent=False)] + initial
     return StrategyPack(initial_strats=initial, inferral_strats=inferral,
                         expansion_strats=expansion, ver_strats=ver, name=nm,
                         symmetries=[Swap()] if sym else [], iterative=iterative)
